@@ -160,8 +160,26 @@ func (in *Interp) binop(op token.Token, xt, yt types.Type, x, y Value) Value {
 
 func (in *Interp) floatBinop(op token.Token, a, b *Term) Value {
 	st := in.st
+	if (!a.IsConst() || !b.IsConst()) && (op == token.EQL || op == token.NEQ) {
+		// IEEE equality is exact on the bit patterns: neither operand is a NaN, and the patterns are
+		// equal or both are a zero of either sign
+		w := a.W
+		expMask, manMask, absMask := uint64(0x7f800000), uint64(0x007fffff), uint64(0x7fffffff)
+		if w == 64 {
+			expMask, manMask, absMask = 0x7ff0000000000000, 0x000fffffffffffff, 0x7fffffffffffffff
+		}
+		isNaN := func(x *Term) *Term {
+			return st.BAnd(st.Eq(st.And(x, st.Const(expMask, w)), st.Const(expMask, w)), st.BNot(st.Eq(st.And(x, st.Const(manMask, w)), st.Const(0, w))))
+		}
+		bothZero := st.Eq(st.And(st.Or(a, b), st.Const(absMask, w)), st.Const(0, w))
+		eq := st.BAnd(st.BAnd(st.BNot(isNaN(a)), st.BNot(isNaN(b))), st.BOr(st.Eq(a, b), bothZero))
+		if op == token.NEQ {
+			return st.BNot(eq)
+		}
+		return eq
+	}
 	if !a.IsConst() || !b.IsConst() {
-		// bit equality is decidable without float theory only for identical terms
+		// ordering and arithmetic on symbolic floats would need the floating-point theory
 		in.unsupported("symbolic float arithmetic/comparison " + op.String())
 	}
 	x, y := in.floatVal(a), in.floatVal(b)
